@@ -380,4 +380,334 @@ theorem runHistory_flag (fuel pf : Nat) (fs : FS) (hfs : FsNoCode fs) (b : Bool)
       simp only [Res.setFlag]
       rw [ih]
 
+/-! ### a run that completes has loaded — hence parsed — everything reachable -/
+
+/-- `a` includes `b` -/
+def Inc (fs : FS) (a b : Nat) : Prop :=
+  ∃ f p dyn, fs.lookup a = some f ∧ Item.incl b p dyn ∈ f.items
+
+/-- reachability through includes (reflexive, transitive) -/
+inductive Reaches (fs : FS) : Nat → Nat → Prop
+  | refl (a : Nat) : Reaches fs a a
+  | step (a b c : Nat) : Inc fs a b → Reaches fs b c → Reaches fs a c
+
+/-- a template object is the parse of the file of its name -/
+def TF (fs : FS) (t : Tmpl) : Prop := ∃ f, fs.lookup t.name = some f ∧ t.items = f.items
+
+/-- every cached template object sits under its own name and is the parse of that file -/
+def Faithful (fs : FS) (st : St) : Prop :=
+  ∀ k t, st.cache.lookup k = some t → t.name = k.1 ∧ TF fs t
+
+/-- the cache only grows -/
+def Mono (a b : St) : Prop := ∀ k t, a.cache.lookup k = some t → b.cache.lookup k = some t
+
+def Loaded (st : St) (n : Nat) : Prop := ∃ abs t, st.cache.lookup (n, abs) = some t
+
+theorem Mono.refl (a : St) : Mono a a := fun _ _ h => h
+theorem Mono.trans {a b c : St} (h1 : Mono a b) (h2 : Mono b c) : Mono a c :=
+  fun k t h => h2 k t (h1 k t h)
+theorem Loaded.mono {a b : St} {n : Nat} (h : Loaded a n) (hm : Mono a b) : Loaded b n := by
+  obtain ⟨abs, t, ht⟩ := h; exact ⟨abs, t, hm _ _ ht⟩
+
+theorem load_faithful (fs : FS) (st st' : St) (name : Nat) (c : Cls) (abs : Bool) (t : Tmpl)
+    (hf : Faithful fs st) (h : load fs st name c abs = .ok (st', t)) :
+    Faithful fs st' ∧ Mono st st' ∧ t.name = name ∧ TF fs t ∧ Loaded st' name := by
+  unfold load at h
+  cases hl : st.cache.lookup (name, abs) with
+  | some t0 =>
+      rw [hl] at h
+      cases h
+      have := hf _ _ hl
+      exact ⟨hf, Mono.refl _, this.1, this.2, ⟨abs, t, hl⟩⟩
+  | none =>
+      rw [hl] at h
+      cases hfile : fs.lookup name with
+      | none => rw [hfile] at h; cases h
+      | some f =>
+          rw [hfile] at h
+          simp only at h
+          cases hp : parseFile c st.flag name f with
+          | error e => rw [hp] at h; cases h
+          | ok t1 =>
+              rw [hp] at h
+              cases h
+              obtain ⟨hi, hn⟩ := parse_items c st.flag name f t hp
+              have htf : TF fs t := ⟨f, by rw [hn]; exact hfile, hi⟩
+              refine ⟨?_, ?_, hn, htf, ⟨abs, t, by simp [List.lookup]⟩⟩
+              · intro k t2 hk
+                rcases lookup_cons_some k (name, abs) t2 t st.cache hk with ⟨rfl, rfl⟩ | h2
+                · exact ⟨hn, htf⟩
+                · exact hf _ _ h2
+              · intro k t2 hk
+                have hne : (k == (name, abs)) = false := by
+                  cases hkk : (k == (name, abs)) with
+                  | false => rfl
+                  | true =>
+                      have : k = (name, abs) := by simpa using hkk
+                      rw [this, hl] at hk; cases hk
+                simp [List.lookup, hne, hk]
+
+/-- faithful-and-growing, whatever the result -/
+def Grows (fs : FS) (st : St) (r : Res) : Prop := Faithful fs r.1 ∧ Mono st r.1
+
+theorem preload_grows (fuel : Nat) (fs : FS) :
+    ∀ (stack : List Nat) (t : Tmpl) (st : St), Faithful fs st → Grows fs st (preload fuel fs stack t st) := by
+  induction fuel with
+  | zero => intro stack t st hf; exact ⟨hf, Mono.refl _⟩
+  | succ fuel ih =>
+      intro stack t st hf
+      unfold preload
+      apply foldl_inv (Grows fs st)
+      · exact ⟨hf, Mono.refl _⟩
+      · intro acc it _ hacc
+        obtain ⟨sa, ea⟩ := acc
+        cases ea with
+        | some e => exact hacc
+        | none =>
+            obtain ⟨hfa, hma⟩ := hacc
+            simp only at hfa hma
+            cases it with
+            | text i => exact ⟨hfa, hma⟩
+            | expr i => exact ⟨hfa, hma⟩
+            | code i m => exact ⟨hfa, hma⟩
+            | incl n p dyn =>
+                cases dyn with
+                | true => exact ⟨hfa, hma⟩
+                | false =>
+                    simp only
+                    cases hl : load fs sa n (childCls t.cls p) t.absHrefs with
+                    | error e => exact ⟨hfa, hma⟩
+                    | ok pr =>
+                        obtain ⟨st', t'⟩ := pr
+                        obtain ⟨hf', hm', _, _, _⟩ := load_faithful fs sa st' n _ _ t' hfa hl
+                        simp only
+                        by_cases hk : stack.contains t'.name = true
+                        · rw [if_pos hk]; exact ⟨hf', hma.trans hm'⟩
+                        · rw [if_neg hk]
+                          have := ih (t'.name :: stack) t' st' hf'
+                          exact ⟨this.1, (hma.trans hm').trans this.2⟩
+
+theorem gen_grows (fuel pf : Nat) (fs : FS) :
+    ∀ (prep : Bool) (host : Cls) (stack : List Nat) (t : Tmpl) (st : St), Faithful fs st →
+      Grows fs st (gen fuel pf fs prep host stack t st) := by
+  induction fuel with
+  | zero => intro prep host stack t st hf; exact ⟨hf, Mono.refl _⟩
+  | succ fuel ih =>
+      intro prep host stack t st hf
+      unfold gen
+      apply foldl_inv (Grows fs st)
+      · by_cases hp : (prep && !st.autoReload) = true
+        · rw [if_pos hp]; exact preload_grows pf fs stack t st hf
+        · rw [if_neg hp]; exact ⟨hf, Mono.refl _⟩
+      · intro acc it _ hacc
+        obtain ⟨sa, ea⟩ := acc
+        cases ea with
+        | some e => exact hacc
+        | none =>
+            obtain ⟨hfa, hma⟩ := hacc
+            simp only at hfa hma
+            cases it with
+            | text i => exact ⟨hfa, hma⟩
+            | expr i => exact ⟨hfa, hma⟩
+            | code i m => exact ⟨hfa, hma⟩
+            | incl n p dyn =>
+                simp only
+                by_cases hin : (!sa.autoReload && !dyn && !stack.contains n) = true
+                · rw [if_pos hin]
+                  cases hl : load fs sa n (childCls t.cls p) t.absHrefs with
+                  | error e => exact ⟨hfa, hma⟩
+                  | ok pr =>
+                      obtain ⟨st', t'⟩ := pr
+                      obtain ⟨hf', hm', _, _, _⟩ := load_faithful fs sa st' n _ _ t' hfa hl
+                      have := ih false host (n :: stack) t' st' hf'
+                      exact ⟨this.1, (hma.trans hm').trans this.2⟩
+                · rw [if_neg hin]
+                  cases hl : load fs sa n (inclCls t.cls p host) t.absHrefs with
+                  | error e => exact ⟨hfa, hma⟩
+                  | ok pr =>
+                      obtain ⟨st', t'⟩ := pr
+                      obtain ⟨hf', hm', _, _, _⟩ := load_faithful fs sa st' n _ _ t' hfa hl
+                      have := ih true t'.cls [t'.name] t' st' hf'
+                      exact ⟨this.1, (hma.trans hm').trans this.2⟩
+
+/-- the error of a fold step is sticky -/
+theorem foldl_sticky {α : Type} (f : Res → α → Res) (hs : ∀ s e it, f (s, some e) it = (s, some e))
+    (l : List α) (s : St) (e : Err) : l.foldl f (s, some e) = (s, some e) := by
+  induction l with
+  | nil => rfl
+  | cons x xs ih => simp only [List.foldl_cons, hs, ih]
+
+/-- the render step of `gen` (the function folded over the items) -/
+def genStep (fuel pf : Nat) (fs : FS) (host : Cls) (stack : List Nat) (t : Tmpl) (acc : Res) (it : Item) : Res :=
+  match acc with
+  | (st, some e) => (st, some e)
+  | (st, none) =>
+      match it with
+      | .text i => ({ st with out := st.out ++ [i] }, none)
+      | .expr i => ({ st with out := st.out ++ [i] }, none)
+      | .code i m => ({ st with sentinel := st.sentinel ++ List.replicate m i }, none)
+      | .incl n p dyn =>
+          if !st.autoReload && !dyn && !stack.contains n then
+            match load fs st n (childCls t.cls p) t.absHrefs with
+            | .error e => (st, some e)
+            | .ok (st', t') => gen fuel pf fs false host (n :: stack) t' st'
+          else
+            match load fs st n (inclCls t.cls p host) t.absHrefs with
+            | .error e => (st, some e)
+            | .ok (st', t') => gen fuel pf fs true t'.cls [t'.name] t' st'
+
+theorem gen_succ (fuel pf : Nat) (fs : FS) (prep : Bool) (host : Cls) (stack : List Nat) (t : Tmpl) (st : St) :
+    gen (fuel + 1) pf fs prep host stack t st =
+      t.items.foldl (genStep fuel pf fs host stack t)
+        (if prep && !st.autoReload then preload pf fs stack t st else (st, none)) := by
+  rfl
+
+/-- **a generate() that completes without error has loaded every template reachable from its
+    includes**, and each of them completed too (induction over the fuel, i.e. the include depth
+    actually unfolded; a cyclic graph never completes) -/
+theorem gen_closure (fuel pf : Nat) (fs : FS) :
+    ∀ (prep : Bool) (host : Cls) (stack : List Nat) (t : Tmpl) (st st' : St), Faithful fs st → TF fs t →
+      gen fuel pf fs prep host stack t st = (st', none) →
+      ∀ n p dyn, Item.incl n p dyn ∈ t.items → ∀ b, Reaches fs n b → Loaded st' b := by
+  induction fuel with
+  | zero =>
+      intro prep host stack t st st' _ _ h
+      simp [gen] at h
+  | succ fuel ih =>
+      intro prep host stack t st st' hf htf h
+      rw [gen_succ] at h
+      -- the state the items start from
+      have hstart : Grows fs st (if prep && !st.autoReload then preload pf fs stack t st else (st, none)) := by
+        by_cases hp : (prep && !st.autoReload) = true
+        · rw [if_pos hp]; exact preload_grows pf fs stack t st hf
+        · rw [if_neg hp]; exact ⟨hf, Mono.refl _⟩
+      generalize (if prep && !st.autoReload then preload pf fs stack t st else (st, none)) = start at h hstart
+      -- inner induction over the items still to be rendered
+      have inner : ∀ (l : List Item) (acc : Res), Faithful fs acc.1 →
+          l.foldl (genStep fuel pf fs host stack t) acc = (st', none) →
+          Mono acc.1 st' ∧ ∀ n p dyn, Item.incl n p dyn ∈ l → ∀ b, Reaches fs n b → Loaded st' b := by
+        intro l
+        induction l with
+        | nil =>
+            intro acc _ hacc
+            simp only [List.foldl_nil] at hacc
+            rw [hacc]
+            exact ⟨Mono.refl _, by intro n p dyn hmem; cases hmem⟩
+        | cons it rest ihl =>
+            intro acc hfa hacc
+            simp only [List.foldl_cons] at hacc
+            obtain ⟨sa, ea⟩ := acc
+            cases ea with
+            | some e =>
+                have hst : ∀ s e it, genStep fuel pf fs host stack t (s, some e) it = (s, some e) := by
+                  intro s e it; rfl
+                rw [show genStep fuel pf fs host stack t (sa, some e) it = (sa, some e) from rfl,
+                    foldl_sticky _ hst] at hacc
+                cases hacc
+            | none =>
+                simp only at hfa
+                -- the step on `it`
+                have hstep : Grows fs sa (genStep fuel pf fs host stack t (sa, none) it) := by
+                  cases it with
+                  | text i => exact ⟨hfa, Mono.refl _⟩
+                  | expr i => exact ⟨hfa, Mono.refl _⟩
+                  | code i m => exact ⟨hfa, Mono.refl _⟩
+                  | incl n p dyn =>
+                      simp only [genStep]
+                      by_cases hin : (!sa.autoReload && !dyn && !stack.contains n) = true
+                      · rw [if_pos hin]
+                        cases hl : load fs sa n (childCls t.cls p) t.absHrefs with
+                        | error e => exact ⟨hfa, Mono.refl _⟩
+                        | ok pr =>
+                            obtain ⟨s1, t1⟩ := pr
+                            obtain ⟨hf1, hm1, _, _, _⟩ := load_faithful fs sa s1 n _ _ t1 hfa hl
+                            have := gen_grows fuel pf fs false host (n :: stack) t1 s1 hf1
+                            exact ⟨this.1, hm1.trans this.2⟩
+                      · rw [if_neg hin]
+                        cases hl : load fs sa n (inclCls t.cls p host) t.absHrefs with
+                        | error e => exact ⟨hfa, Mono.refl _⟩
+                        | ok pr =>
+                            obtain ⟨s1, t1⟩ := pr
+                            obtain ⟨hf1, hm1, _, _, _⟩ := load_faithful fs sa s1 n _ _ t1 hfa hl
+                            have := gen_grows fuel pf fs true t1.cls [t1.name] t1 s1 hf1
+                            exact ⟨this.1, hm1.trans this.2⟩
+                obtain ⟨hrest_mono, hrest⟩ := ihl _ hstep.1 hacc
+                refine ⟨hstep.2.trans hrest_mono, ?_⟩
+                intro n p dyn hmem b hb
+                cases hmem with
+                | tail _ hmem' => exact hrest n p dyn hmem' b hb
+                | head =>
+                    -- `it` is this include: it was loaded, and generated to completion
+                    -- the accumulator after the step has no error (else the fold would keep it)
+                    rcases hres : genStep fuel pf fs host stack t (sa, none) (.incl n p dyn) with ⟨s2, e2⟩
+                    cases e2 with
+                    | some e =>
+                        have hst : ∀ s e it, genStep fuel pf fs host stack t (s, some e) it = (s, some e) := by
+                          intro s e it; rfl
+                        rw [hres, foldl_sticky _ hst] at hacc
+                        cases hacc
+                    | none =>
+                        rw [hres] at hstep hrest_mono
+                        simp only [genStep] at hres
+                        -- in both branches: load ok (s1, t1), then gen ... t1 s1 = (s2, none)
+                        have key : ∃ (s1 : St) (t1 : Tmpl) (c : Cls) (pr' : Bool) (h' : Cls) (k' : List Nat),
+                            load fs sa n c t.absHrefs = .ok (s1, t1) ∧
+                            gen fuel pf fs pr' h' k' t1 s1 = (s2, none) := by
+                          by_cases hin : (!sa.autoReload && !dyn && !stack.contains n) = true
+                          · rw [if_pos hin] at hres
+                            cases hl : load fs sa n (childCls t.cls p) t.absHrefs with
+                            | error e => rw [hl] at hres; cases hres
+                            | ok pr =>
+                                obtain ⟨s1, t1⟩ := pr
+                                rw [hl] at hres
+                                exact ⟨s1, t1, _, _, _, _, hl, hres⟩
+                          · rw [if_neg hin] at hres
+                            cases hl : load fs sa n (inclCls t.cls p host) t.absHrefs with
+                            | error e => rw [hl] at hres; cases hres
+                            | ok pr =>
+                                obtain ⟨s1, t1⟩ := pr
+                                rw [hl] at hres
+                                exact ⟨s1, t1, _, _, _, _, hl, hres⟩
+                        obtain ⟨s1, t1, c, pr', h', k', hl, hg⟩ := key
+                        obtain ⟨hf1, _, hname, htf1, hloaded⟩ := load_faithful fs sa s1 n _ _ t1 hfa hl
+                        have hg_grows := gen_grows fuel pf fs pr' h' k' t1 s1 hf1
+                        rw [hg] at hg_grows
+                        -- b is n itself or reached through an include of n
+                        cases hb with
+                        | refl => exact (hloaded.mono hg_grows.2).mono hrest_mono
+                        | step _ m _ hinc hmb =>
+                            obtain ⟨f, p', dyn', hfl, hmem'⟩ := hinc
+                            obtain ⟨f1, hf1l, hitems⟩ := htf1
+                            rw [hname] at hf1l
+                            rw [hfl] at hf1l
+                            cases hf1l
+                            rw [← hitems] at hmem'
+                            exact (ih pr' h' k' t1 s1 s2 hf1 ⟨f, by rw [hname]; exact hfl, hitems⟩ hg m p' dyn' hmem' b hmb).mono hrest_mono
+      exact (inner t.items start hstart.1 h).2
+
+theorem histStep_faithful (fuel pf : Nat) (fs : FS) (st : St) (name : Nat) (hf : Faithful fs st) :
+    Faithful fs (histStep fuel pf fs st name).1 := by
+  unfold histStep
+  cases hfile : fs.lookup name with
+  | none => exact hf
+  | some f =>
+      simp only
+      cases hl : load fs st name f.syn with
+      | error e => exact hf
+      | ok pr =>
+          obtain ⟨st', t⟩ := pr
+          obtain ⟨hf', _, _, _, _⟩ := load_faithful fs st st' name _ _ t hf hl
+          have hf'' : Faithful fs { st' with out := [] } := hf'
+          have := gen_grows fuel pf fs true t.cls [name] t { st' with out := [] } hf''
+          exact this.1
+
+theorem runHistory_faithful (fuel pf : Nat) (fs : FS) (hist : List Nat) :
+    ∀ st, Faithful fs st → Faithful fs (runHistory fuel pf fs st hist).1 := by
+  induction hist with
+  | nil => intro st hf; exact hf
+  | cons n ns ih =>
+      intro st hf
+      simp only [runHistory]
+      exact ih _ (histStep_faithful fuel pf fs st n hf)
+
 end Genshi.Exec
